@@ -6,6 +6,7 @@ GEN_KINDS = {
     "magic": "MagicData.v",
     "polyglot": "PolyglotData.v",
     "bitbase": "BitbaseDump.v",
+    "consts": "Consts.v",
 }
 
 
